@@ -9,7 +9,7 @@
     thread ids [sched] (a blocked or finished thread's turn is a no-op).  [fixed] is the code
     with the two repairs made for this property (ENOTDIR treated as missing; everything below
     a wounded directory is wounded without looking at the disk). *)
-From Wharf Require Import Base.Prelude FS.Tree FS.Ops FS.OpsProofs
+From Wharf Require Import FS.Light FS.Tree FS.Ops FS.OpsProofs
      Heal.Validator Heal.Healer Heal.HealMeasure Heal.HealMain Heal.HealWitness.
 
 (** For all signed builds (well-formed containers), all damaged trees - any finite map from
